@@ -10,6 +10,9 @@ RULE = {
     "title": "t",
     "logsource": {"category": "c", "product": "windows"},
     "tags": ["attack.t1000"],
+    "level": "high",
+    "author": "me",
+    "severity_score": 5,
     "fields": ["fieldA", "fieldE"],
     "detection": {"sel": {"fieldA": ["foo*", "bar"], "fieldC": None, "fieldD": 5, "fieldG|fieldref": "fieldH"}, "condition": "sel"},
 }
@@ -30,6 +33,12 @@ def cond_dict(level, c):
             return {"type": t}
         if t == "tag":
             return {"type": "tag", "tag": uncps(c["s"])}
+        if t == "attr":
+            v = uncps(c["v"])
+            return {"type": "rule_attribute", "attribute": uncps(c["k"]), "op": c["s"], "value": int(v) if v.isdigit() else v}
+        if t == "contains_item":
+            v = uncps(c["v"])
+            return {"type": "contains_detection_item", "field": uncps(c["k"]), "value": int(v) if v.isdigit() else v}
     if level == "item" and t in ("match_string", "match_value", "contains_wildcard", "is_null"):
         d = {"type": t, "cond": "all" if c["all"] else "any"}
         if t == "match_string":
